@@ -57,7 +57,7 @@ impl<P, B: RingBuf<Item = P>> Buf<P> for B {
 /// lengths above 64 that are not powers of two.
 macro_rules! user_array {
     ($name:ident, $n:literal) => {
-        pub struct $name<P>([P; $n]);
+        pub struct $name<P>(pub [P; $n]);
         unsafe impl<P> futures_intrusive::buffer::RealArray<P> for $name<P> {
             const LEN: usize = $n;
         }
